@@ -4,7 +4,7 @@ use crate::common::*;
 use crate::srv::{err_json, ident, payload_for};
 use bytes::Bytes;
 use futures_util::StreamExt;
-use iggy::client::{ConsumerOffsetClient, TopicClient};
+use iggy::client::{Client, ConsumerOffsetClient, TopicClient, UserClient};
 use iggy::clients::client::IggyClient;
 use iggy::clients::consumer::{AutoCommit, AutoCommitAfter, AutoCommitWhen, IggyConsumer, ReceivedMessage};
 use iggy::consumer_ext::{IggyConsumerMessageExt, MessageConsumer};
@@ -186,7 +186,7 @@ fn build_consumer(c: &IggyClient, op: &Value) -> Result<IggyConsumer, IggyError>
 ///  "commit":{kind,interval_ms,n},"take":n,"idle_ms":n,"via":"stream"|"ext","manual":bool,"linger_ms":n}
 /// Yields at most `take` messages, or stops after `idle_ms` without a message; the consumer object is then kept alive for
 /// `linger_ms` (interval commits), dropped, and the background store queue is given `settle_ms` to drain.
-pub async fn consume(c: &IggyClient, op: &Value) -> Value {
+pub async fn consume(c: &IggyClient, addr: std::net::SocketAddr, op: &Value) -> Value {
     let mut consumer = match build_consumer(c, op) {
         Ok(x) => x,
         Err(e) => return err_json(&e),
@@ -272,7 +272,11 @@ pub async fn consume(c: &IggyClient, op: &Value) -> Value {
     };
     let stream: Identifier = s(op, "stream").try_into().unwrap();
     let topic: Identifier = s(op, "topic").try_into().unwrap();
-    let parts = match c.get_topic(&stream, &topic).await {
+    // (asked over a connection of its own: the consumer's connection may hold the unread answer of a cancelled poll)
+    let obs = IggyClient::builder().with_tcp().with_server_address(addr.to_string()).build().unwrap();
+    obs.connect().await.unwrap();
+    obs.login_user("iggy", "iggy").await.unwrap();
+    let parts = match obs.get_topic(&stream, &topic).await {
         Ok(Some(t)) => t.partitions_count,
         _ => 0,
     };
@@ -282,7 +286,7 @@ pub async fn consume(c: &IggyClient, op: &Value) -> Value {
     while stable < 3 && started.elapsed() < Duration::from_secs(5) {
         let mut snap = vec![];
         for p in 1..=parts {
-            snap.push(c.get_consumer_offset(&consumer, &stream, &topic, Some(p)).await.ok().flatten().map(|o| o.stored_offset));
+            snap.push(obs.get_consumer_offset(&consumer, &stream, &topic, Some(p)).await.ok().flatten().map(|o| o.stored_offset));
         }
         if last.as_ref() == Some(&snap) {
             stable += 1;
@@ -292,5 +296,6 @@ pub async fn consume(c: &IggyClient, op: &Value) -> Value {
         }
         tokio::time::sleep(Duration::from_millis(40)).await;
     }
+    let _ = obs.disconnect().await;
     json!({"r": "ok", "yielded": got, "ended": ended, "errs": errs})
 }
